@@ -1321,3 +1321,6 @@ mutant("seed-c16-unload-after-tokenising", "C16", (R, """        self.unload()
         self.unload()
 """), "O9/Antecedent.load/unload-first")
 mutant("seed-c20-skip-unchanged", "C20", (L, "        rollback_settings = vars(self).copy()\n        for key, value in context_settings.items():\n            setattr(self, key, value)", "        rollback_settings = vars(self).copy()\n        context_settings = {key: value for key, value in context_settings.items() if rollback_settings[key] != value}\n        for key, value in context_settings.items():\n            setattr(self, key, value)"), "Y4/Settings.context/named-keys")
+mutant("seed-c14-rule-block-without-engine", "C14", (I, "            rule_block = self.rule_block(self.separator.join(block), engine)", "            rule_block = self.rule_block(self.separator.join(block))"), "T14/FllImporter._process->rule_block")
+mutant("seed-c14-term-no-update-reference", "C14", (I, "        term.update_reference(engine)\n        return term", "        return term"), "T")
+mutant("seed-c15-maxlist-not-lifted", "C15", (L, "        self.maxlist *= increase_factor\n", ""), "R11/Representation.__init__/maxlist")
